@@ -45,15 +45,25 @@ def jobs(tier, ws, prop='C04'):
                     nlens = ([3, 8] if pp in (4, 33, 35) else []) if ver == 1 else ([8] if pp in (29, 35) else [])
                 else:
                     nlens = range(0, 9) if ch == 36 else (0, 3, 8)
+                nlens = list(nlens)
                 for nlen in nlens:
+                    big = False
                     js.append(mk('hdr_get_NC_name/c%d/p%d/v%d/n%d' % (ch, pp, ver, nlen), 'hdr_get_NC_name',
-                                 ['-DH_name', '-DFMTVER=%d' % ver, '-DNLEN=%d' % nlen, '-DNAMEB=8'] + d, ['noerr'],
-                                 unwindset=['ncmpio_header_get.c:hdr_get_NC_name.0:4'],
+                                 ['-DH_name', '-DFMTVER=%d' % ver, '-DNLEN=%d' % nlen, '-DNAMEB=8'] + (['-DG_FILE_MAX=320'] if big else []) + d, ['noerr'],
+                                 unwindset=['ncmpio_header_get.c:hdr_get_NC_name.0:%d' % (24 if big else 4)],
                                  bound=b + ', name length = %d (enumerated)' % nlen, prop=prop, object_bits=10,
                                  assumptions=['hdr_get_NC_name jobs inline hdr_get_uint32/64 and hdr_fetch (each enforced against its own contract in its own job)']))
                 if tier != 'quick' or (pp == 4 and ver == 5):
                   js.append(mk('hdr_get_NC_name/oversize/c%d/p%d/v%d' % (ch, pp, ver), 'hdr_get_NC_name',
                              ['-DH_name', '-DFMTVER=%d' % ver, '-DNAME_OVERSIZE', '-DOVERSIZE_LOW=%d' % (1 + pp % 7)] + d, ['emaxname'], unwindset=['ncmpio_header_get.c:hdr_get_NC_name.0:4'], bound=b, prop=prop, object_bits=10))
+    # the longest legal name (NC_MAX_NAME = 256 bytes): acceptance boundary of the length test.  Copying 256 bytes over eight refills
+    # exhausts memory under DFCC (and without it), so the instance puts the length field at the end of the window and lets the first
+    # refill fail: a correct parser passes the length test and returns the I/O error, NC_EMAXNAME is returned only for a longer name
+    for ver in (1, 5):
+        js.append(mk('hdr_get_NC_name/longest_legal_name/v%d' % ver, 'hdr_get_NC_name',
+                     ['-DH_name', '-DFMTVER=%d' % ver, '-DNAME_BOUNDARY', '-DCHUNK=36', '-DPPOS=%d' % (32 if ver == 1 else 28), '-DINJECT=1'],
+                     ['longest_legal_name_passes_the_length_test_and_reaches_the_refill'], unwindset=['ncmpio_header_get.c:hdr_get_NC_name.0:4'],
+                     bound='chunk=36, length field at the end of the window, encoded name length = 256 (NC_MAX_NAME), first refill fails', prop=prop, object_bits=10))
     if prop == 'C04':
         import C19
         js += [j for j in C19.var_jobs(tier, 'C04') if 'ndims2' in j.name or tier != 'quick']   # dimension ids decoded exactly, in order
